@@ -92,17 +92,21 @@ Definition spec_data (e : entity) (cs : list component) : Prop :=
 (* Status: <PREFIX>UNSPECIFIED (or the declared first status when that already ends in
    UNSPECIFIED) = 0, then the declared statuses numbered 1..n in declaration order, every value
    carrying the prefix SCREAMING_SNAKE(entity)_STATUS_ *)
-Definition declared_after_zero (l : list bytes) : list bytes :=
+(* [n0]: the number the first status declares (0 = none): a first status ending in UNSPECIFIED that
+   declares no number IS the zero value; declared numbers do not otherwise influence the numbering *)
+Definition declared_after_zero_n (l : list bytes) (n0 : N) : list bytes :=
   match l with
-  | s :: r => if has_suffix (bs "UNSPECIFIED") s then r else l
+  | s :: r => if has_suffix (bs "UNSPECIFIED") s && (n0 =? 0) then r else l
   | [] => []
   end.
+Definition declared_after_zero (l : list bytes) : list bytes := declared_after_zero_n l 0.
+Definition sp_first_number (e : entity) : N := match e_status_num e with n :: _ => n | [] => 0 end.
 Definition spec_status (e : entity) (cs : list component) : Prop :=
   exists vs, has_enum cs (sp_name e "Status") vs
     /\ (exists z, nth_error vs 0 = Some (z, 0) /\ has_suffix (bs "UNSPECIFIED") z = true
                   /\ has_prefix (sp_status_prefix e) z = true)
-    /\ length vs = S (length (declared_after_zero (e_status e)))
-    /\ forall k s, nth_error (declared_after_zero (e_status e)) k = Some s ->
+    /\ length vs = S (length (declared_after_zero_n (e_status e) (sp_first_number e)))
+    /\ forall k s, nth_error (declared_after_zero_n (e_status e) (sp_first_number e)) k = Some s ->
          exists v, nth_error vs (S k) = Some (v, N.of_nat (S k))
                    /\ has_prefix (sp_status_prefix e) v = true /\ has_suffix s v = true.
 
@@ -194,23 +198,33 @@ Definition spec_annotations (e : entity) (cs : list component) : Prop :=
   /\ (forall s, In s (svcs_in cs 1) -> svc_entity s = sp_annotation e)
   /\ (forall s, In s (svcs_in cs 2) -> svc_entity s = sp_topic_entity e).
 
-(* ---- clause 5: "mutually consistent" ------------------------------------------------------------------ *)
-(* every reference resolves, every name is defined once per scope, and State / Event are
-   objects: their JSON properties (after flattening the keys) are distinct *)
+(* ---- clause 5: "yields": the output is a linkable set of files ------------------------------------------ *)
+(* every reference resolves and every name is defined once per scope (what the compiler's own
+   link step demands before it hands the descriptors out) *)
 Definition spec_consistent (e : entity) (cs : list component) : Prop :=
   closed cs = true /\ link_ok cs = true.
+
+(* NOT a clause of C17 (known-findings audit 2.6: the text says State and Event "hold metadata plus
+   the flattened keys (and data/status, or the event oneof)", which holds literally also when a key
+   is named like one of these properties; uniqueness of JSON property names is C18's clause, where
+   the class is recorded).  Kept as a lemma about the model, outside [C17_spec]: the JSON
+   properties of State / Event (after flattening the keys) are distinct *)
 Definition spec_objects (e : entity) (cs : list component) : Prop :=
   forall m, has_msg cs 0 m -> (m_name m = sp_name e "State" \/ m_name m = sp_name e "Event") ->
     NoDup (json_props cs m).
+(* no key named like a property of State / Event: the hypothesis of that lemma *)
+Definition state_event_names_free (e : entity) : bool :=
+  forallb (fun k => negb (existsb (bytes_eqb (key_name k)) [bs "metadata"; bs "data"; bs "status"; bs "event"]))
+          (e_keys e).
 
-(* everything but the two clauses that are refuted / need the literal base path *)
+(* everything but the clause that needs the literal base path *)
 Definition C17_spec_core (e : entity) (cs : list component) : Prop :=
   spec_keys e cs /\ spec_data e cs /\ spec_status e cs /\ spec_state e cs /\ spec_event e cs
   /\ spec_event_type e cs /\ spec_query e cs /\ spec_commands e cs /\ spec_topics e cs
   /\ spec_annotations e cs /\ spec_consistent e cs.
 
 Definition C17_spec (e : entity) (cs : list component) : Prop :=
-  C17_spec_core e cs /\ spec_query_paths e cs /\ spec_objects e cs.
+  C17_spec_core e cs /\ spec_query_paths e cs.
 
 (* ---- the quantifier ---------------------------------------------------------------------------------------
    "for all entity declarations: any entity name casing, 1..n keys of any type with any mix of
@@ -221,18 +235,60 @@ Definition C17_spec (e : entity) (cs : list component) : Prop :=
    repeat the entity's own component names; fields are not both optional and required; references
    name a schema of the block (or the entity's Keys / Data); ":name" parts of a method path are
    request fields; default status filters are statuses.  No condition mentions a field name the
-   expansion itself adds (page, query, upsert, metadata, data, status, event, type): see
-   [reserved_free]. *)
+   expansion itself adds (page, query, upsert, metadata, data, status, event, type): the names that
+   make the compiler REJECT the declaration are collected in [reserved_free]; a key named
+   metadata / data / status / event is inside the quantifier AND satisfies the property. *)
 Definition starts_letter (s : bytes) : bool := match s with c :: _ => is_letter c | [] => false end.
 Definition starts_cap (s : bytes) : bool := match s with c :: _ => is_cap c | [] => false end.
 Definition name_ok (s : bytes) : bool := ident s && starts_letter s.
 Definition type_name_ok (s : bytes) : bool := forallb alnum s && starts_cap s.
 
+(* inline anonymous schemas (field x object { ... } / oneof { ... } / enum { ... }): the type is nested in
+   the message under the name ToCamel(field); its own fields / options form a scope of their own; the
+   values of an inline enum live in the MESSAGE scope (enum values are siblings of their enum) *)
+Definition sfield_wf (s : sfield) : bool :=
+  name_ok (sf_name s) && negb (sf_optional s && sf_required s).
+Definition sp_inline_scope (is_oneof : bool) (fs : list sfield) : list bytes :=
+  map (fun s => to_snake (sf_name s)) fs
+  ++ (if is_oneof then [] else map (fun s => 95 :: to_snake (sf_name s)) (filter sf_optional fs)).
+Definition inline_wf (u : ufield) : bool :=
+  match uf_kind u with
+  | KInlineObject fs => forallb sfield_wf fs && nodup_bytes (sp_inline_scope false fs)
+  | KInlineOneof fs => forallb sfield_wf fs && nodup_bytes (sp_inline_scope true fs)
+  | KInlineEnum os => forallb name_ok os
+  | _ => true
+  end.
 Definition ufield_wf (u : ufield) : bool :=
-  name_ok (uf_name u)
+  name_ok (uf_name u) && inline_wf u
   && negb (uf_optional u && (uf_required u || match uf_kind u with KKey p _ _ => p | _ => false end)).
+(* the proto symbols the user's fields of ONE message stand for: the field ToSnake(name), the
+   presence oneof "_<field>" of an optional singular field, the entry message <Camel>Entry of a map field,
+   the inline type <Camel> of an inline field and the values of an inline enum *)
+Definition is_map_kind (u : ufield) : bool := match uf_kind u with KMap _ => true | _ => false end.
+(* only a singular field has a presence oneof: an optional array / map is a plain repeated field (fix d536c9b) *)
+Definition is_repeated_kind (u : ufield) : bool :=
+  match uf_kind u with KArray _ => true | KMap _ => true | _ => false end.
+Definition sp_presence (u : ufield) : bool := uf_optional u && negb (is_repeated_kind u).
+Definition sp_enum_value_name (prefix s : bytes) : bytes := if has_prefix prefix s then s else prefix ++ s.
+Definition sp_inline_enum_values (name : bytes) (opts : list bytes) : list bytes :=
+  let prefix := to_screaming_snake name ++ [95] in
+  match opts with
+  | s :: _ => if has_suffix (bs "UNSPECIFIED") s then map (sp_enum_value_name prefix) opts
+              else (prefix ++ bs "UNSPECIFIED") :: map (sp_enum_value_name prefix) opts
+  | [] => [prefix ++ bs "UNSPECIFIED"]
+  end.
+Definition sp_inline_names (fs : list ufield) : list bytes :=
+  flat_map (fun u => match uf_kind u with
+    | KInlineObject _ => [to_camel (uf_name u)]
+    | KInlineOneof _ => [to_camel (uf_name u)]
+    | KInlineEnum os => to_camel (uf_name u) :: sp_inline_enum_values (to_camel (uf_name u)) os
+    | _ => [] end) fs.
+Definition sp_field_scope (fs : list ufield) : list bytes :=
+  map (fun u => to_snake (uf_name u)) fs
+  ++ map (fun u => 95 :: to_snake (uf_name u)) (filter sp_presence fs)
+  ++ map (fun u => map_name (to_snake (uf_name u))) (filter is_map_kind fs).
 Definition fields_wf (fs : list ufield) : bool :=
-  forallb ufield_wf fs && nodup_bytes (map (fun u => to_snake (uf_name u)) fs).
+  forallb ufield_wf fs && nodup_bytes (sp_field_scope fs ++ sp_inline_names fs).
 
 (* package: dot-separated lower-case identifiers *)
 Definition pkg_char (c : N) : bool := is_low c || is_num c || (c =? 95) || (c =? 46).
@@ -261,6 +317,8 @@ Definition ref_ok (e : entity) (u : ufield) : bool :=
   | KEnum n => names_enum e n
   | KArray i => item_ref_ok e i
   | KMap i => item_ref_ok e i
+  | KInlineObject fs => forallb (fun s => item_ref_ok e (sf_kind s)) fs
+  | KInlineOneof fs => forallb (fun s => item_ref_ok e (sf_kind s)) fs
   | _ => true
   end.
 
@@ -286,51 +344,113 @@ Definition command_service (e : entity) (c : command) : bytes :=
   | None => sp_camel e ++ bs "CommandService"
   end.
 
+(* the documented names of one package scope each (README "Foo Example"; enum values are named
+   <PREFIX><option>, an option that already carries the prefix keeps its name, and the value 0 is
+   <PREFIX>UNSPECIFIED unless the first option itself ends in UNSPECIFIED) *)
+Definition sp_value_name (prefix s : bytes) : bytes := if has_prefix prefix s then s else prefix ++ s.
+Definition sp_enum_values_n (prefix : bytes) (opts : list bytes) (n0 : N) : list bytes :=
+  match opts with
+  | s :: _ => if has_suffix (bs "UNSPECIFIED") s && (n0 =? 0) then map (sp_value_name prefix) opts
+              else (prefix ++ bs "UNSPECIFIED") :: map (sp_value_name prefix) opts
+  | [] => [prefix ++ bs "UNSPECIFIED"]
+  end.
+Definition sp_enum_values (prefix : bytes) (opts : list bytes) : list bytes := sp_enum_values_n prefix opts 0.
+Definition sp_schema_names (s : eschema) : list bytes :=
+  match s with
+  | SObject n _ => [n]
+  | SOneof n _ => [n]
+  | SEnum n opts => n :: sp_enum_values (to_screaming_snake n ++ [95]) opts
+  end.
+(* <pkg>: the six schemas, the status values, the schemas of the block with their enum values *)
+Definition sp_main_scope (e : entity) : list bytes :=
+  [sp_name e "Keys"; sp_name e "Data"; sp_name e "Status"]
+  ++ sp_enum_values_n (sp_status_prefix e) (e_status e) (sp_first_number e)
+  ++ [sp_name e "State"; sp_name e "EventType"; sp_name e "Event"]
+  ++ flat_map sp_schema_names (e_schemas e).
+(* <pkg>.service: request/response messages of the query and command methods, the services *)
+Definition sp_service_scope (e : entity) : list bytes :=
+  let q := sp_query_prefix e in
+  [q ++ bs "GetRequest"; q ++ bs "GetResponse"; q ++ bs "ListRequest"; q ++ bs "ListResponse";
+   q ++ bs "EventsRequest"; q ++ bs "EventsResponse"; q ++ bs "QueryService"]
+  ++ flat_map (fun c =>
+       flat_map (fun m => (md_name m ++ bs "Request")
+                          :: match md_response m with Some _ => [md_name m ++ bs "Response"] | None => [] end)
+                (c_methods c)
+       ++ [command_service e c]) (e_commands e).
+(* <pkg>.topic: the publish topic and one upsert topic per summary *)
+Definition sp_summary_name (e : entity) (s : summary) : bytes :=
+  sp_camel e ++ match s_name s with [] => bs "Summary" | n => to_camel n end.
+Definition sp_topic_scope (e : entity) : list bytes :=
+  [sp_camel e ++ bs "EventMessage"; to_camel (sp_camel e ++ bs "Publish") ++ bs "Topic"]
+  ++ flat_map (fun s => [sp_summary_name e s ++ bs "Message"; to_camel (sp_summary_name e s) ++ bs "Topic"])
+              (e_summaries e).
+
 Definition in_quantifier (e : entity) : bool :=
   name_ok (e_name e) && pkg_ok (e_pkg e)
   && (is_nil (e_base_url e) || (rel_path_ok (e_base_url e) && is_nil (colon_params (e_base_url e))))
-  (* 1..n keys *)
-  && negb (is_nil (e_keys e)) && fields_wf (map k_def (e_keys e))
+  (* 1..n keys of any type *)
+  && negb (is_nil (e_keys e)) && fields_wf (map k_def (e_keys e)) && forallb (ref_ok e) (map k_def (e_keys e))
   (* 0..n data fields *)
   && fields_wf (e_data e) && forallb (ref_ok e) (e_data e)
-  (* 1..n statuses: distinct identifiers; only the first may be the UNSPECIFIED value *)
-  && negb (is_nil (e_status e)) && forallb name_ok (e_status e) && nodup_bytes (e_status e)
+  (* 1..n statuses: identifiers; only the first may be the UNSPECIFIED value *)
+  && negb (is_nil (e_status e)) && forallb name_ok (e_status e)
   && forallb (fun s => negb (has_suffix (bs "UNSPECIFIED") s)) (tl (e_status e))
   (* 0..n events: object names (upper-case initial), distinct also as oneof options *)
   && forallb (fun ev => type_name_ok (ev_name ev) && fields_wf (ev_fields ev) && forallb (ref_ok e) (ev_fields ev))
              (e_events e)
   && nodup_bytes (map (fun ev => to_snake (to_lower_camel (ev_name ev))) (e_events e))
-  (* 0..n command services with distinct names and distinct method names over the whole block *)
+  (* 0..n command services, each with distinct method names *)
   && forallb (fun c => match c_name c with Some n => type_name_ok n | None => true end
                        && match c_base c with Some b => rel_path_ok b && is_nil (colon_params b) | None => true end
-                       && forallb (method_wf e) (c_methods c)) (e_commands e)
-  && nodup_bytes (map (command_service e) (e_commands e))
-  && nodup_bytes (flat_map (fun c => map md_name (c_methods c)) (e_commands e))
-  && forallb (fun n => negb (existsb (bytes_eqb n)
-                 [sp_query_prefix e ++ bs "Get"; sp_query_prefix e ++ bs "List"; sp_query_prefix e ++ bs "Events"]))
-             (flat_map (fun c => map md_name (c_methods c)) (e_commands e))
-  (* 0..n summaries with distinct names that do not repeat the publish topic's *)
+                       && forallb (method_wf e) (c_methods c)
+                       && nodup_bytes (map md_name (c_methods c))) (e_commands e)
+  (* 0..n summaries with distinct names *)
   && forallb (fun s => (is_nil (s_name s) || name_ok (s_name s)) && fields_wf (s_fields s)
                        && forallb (ref_ok e) (s_fields s)) (e_summaries e)
-  && nodup_bytes (map (fun s => to_camel (match s_name s with [] => bs "Summary" | n => n end)) (e_summaries e))
-  && forallb (fun s => negb (existsb (bytes_eqb (to_camel (s_name s))) [bs "Publish"; bs "Event"])) (e_summaries e)
-  (* schemas of the block: type names distinct from each other and from the component names *)
+  && nodup_bytes (map s_name (e_summaries e))
+  (* schemas of the block *)
   && forallb (fun s => type_name_ok (schema_name s) && fields_wf (schema_fields s) && forallb (ref_ok e) (schema_fields s))
              (e_schemas e)
-  && nodup_bytes (map schema_name (e_schemas e) ++ generated_type_names e)
-  (* query settings: default status filters name statuses *)
+  (* the type / value / service names of each of the three packages, as documented, are distinct:
+     the names the user chooses do not repeat each other or the entity's own component names *)
+  && nodup_bytes (sp_main_scope e) && nodup_bytes (sp_service_scope e) && nodup_bytes (sp_topic_scope e)
+  (* query settings: events in get, default status filters that name statuses (no list-request
+     settings: they are not part of the quantifier, and the real compiler panics on them) *)
+  && negb (list_settings e)
   && match e_query e with
      | Some q => forallb (fun f => existsb (bytes_eqb f) (e_status e)) (q_default_status q)
      | None => true
      end.
 
-(* the field names the expansion itself adds next to the user's: a declaration that uses one of
-   them in that place is inside the quantifier, but its expansion is not linkable / not an object *)
+(* the field names the expansion itself adds next to the user's in ONE proto scope: a declaration that
+   uses one of them in that place is inside the quantifier, but the compiler rejects it (link error
+   `symbol ... already defined`), which contradicts "each entity declaration yields ..." *)
+Definition response_name (e : entity) : bytes := to_snake (to_lower_camel (to_snake (e_name e))).
 Definition reserved_free (e : entity) : bool :=
+  (* keys in the Get/List/Events requests next to page and query *)
   forallb (fun k => negb (key_in_path k && existsb (bytes_eqb (to_snake (key_name k))) [bs "page"; bs "query"]))
           (e_keys e)
-  && forallb (fun k => negb (existsb (bytes_eqb (key_name k)) [bs "metadata"; bs "data"; bs "status"; bs "event"]))
-             (e_keys e)
+  (* summary fields next to upsert *)
   && forallb (fun s => forallb (fun u => negb (bytes_eqb (to_snake (uf_name u)) (bs "upsert"))) (s_fields s))
              (e_summaries e)
-  && forallb (fun ev => negb (bytes_eqb (to_snake (to_lower_camel (ev_name ev))) (bs "type"))) (e_events e).
+  (* oneof options next to the proto oneof "type" (the event oneof and the oneofs of the block) *)
+  && forallb (fun ev => negb (bytes_eqb (to_snake (to_lower_camel (ev_name ev))) (bs "type"))) (e_events e)
+  && forallb (fun s => match s with
+                       | SOneof _ opts => forallb (fun u => negb (bytes_eqb (to_snake (uf_name u)) (bs "type"))) opts
+                       | _ => true end) (e_schemas e)
+  && forallb (fun u => match uf_kind u with
+                        | KInlineOneof opts => forallb (fun o => negb (bytes_eqb (to_snake (sf_name o)) (bs "type"))) opts
+                        | _ => true end) (all_ufields e)
+  (* the entity's own property in the Get / List responses next to events / page *)
+  && negb (bytes_eqb (response_name e) (bs "page"))
+  && negb (match e_query e with Some q => q_events_in_get q | None => false end
+           && bytes_eqb (response_name e) (bs "events")).
+
+(* ---- several entity declarations in one source file --------------------------------------------------
+   each declaration in the quantifier and free of reserved names, and the documented names of the three
+   packages distinct over the WHOLE file (the entities share the packages) *)
+Definition file_quantifier (es : list entity) : bool :=
+  forallb (fun e => in_quantifier e && reserved_free e) es
+  && nodup_bytes (flat_map sp_main_scope es)
+  && nodup_bytes (flat_map sp_service_scope es)
+  && nodup_bytes (flat_map sp_topic_scope es).
